@@ -275,36 +275,61 @@ def rule_L7(ctx):
     prs = [p for p in run_paths(ctx, enc, rule="L7") if p.end == "return"]
     if not prs:
         raise AnalysisError("L7", where(enc), "no return path")
+    from .sem import grow_events
+    obj = enc.args.args[1].arg
+    _ev0 = evaluator(ctx, enc, {})
+    ENCX = f"StreamEncoding(endianess=Endianess.LITTLE, sample_width={obj}.data_streams[0].encoding.sample_width, num_interleaved_channels={obj}.num_channels)"
+    want_chunk = {
+        "FMT": _ev0.ev(ast.parse("Container({'riff_id': WavRiffChunkType.FMT, 'data': get_fmt_chunk_data(" + obj + ", " + ENCX + ")})", mode="eval").body).key(),
+        "SMPL": _ev0.ev(ast.parse("Container({'riff_id': WavRiffChunkType.SMPL, 'data': get_smpl_chunk_data(" + obj + ")})", mode="eval").body).key(),
+        "DATA": _ev0.ev(ast.parse("Container({'riff_id': WavRiffChunkType.DATA, 'data': make_transcoder(" + obj + ".data_streams, " + ENCX + ")})", mode="eval").body).key(),
+    }
+    seen_orders = set()
     for p in prs:
-        order = []
-        for call, env, st in calls_on(p, attr="append"):
-            if dotted(call.func.value) != "riff_chunks":
+        # the list that ends up under data -> chunks, reconstructed along the path: initial literal + appends / extends in order
+        ret = p.ret.key() if p.ret is not None else ""
+        import re as _re
+        m = _re.fullmatch(r"Container\(\{data:Container\(\{chunks:(.+)\}\)\}\)", ret)
+        lname = None
+        for s_ in p.steps:
+            if s_.kind == "stmt" and isinstance(s_.ast, ast.Assign) and isinstance(s_.ast.value, ast.List) and len(s_.ast.targets) == 1 and isinstance(s_.ast.targets[0], ast.Name):
+                if any(True for _ in grow_events(enc, s_.ast.targets[0].id)):
+                    lname = s_.ast.targets[0].id
+        elems = []
+        for s_ in p.steps:
+            if s_.kind != "stmt" or lname is None:
                 continue
-            arg = call.args[0]
-            rid = None
-            for n in ast.walk(arg):
-                if isinstance(n, ast.Attribute) and norm(n.value) == "WavRiffChunkType" and n.attr in ("FMT", "SMPL", "DATA"):
-                    rid = n.attr
-            order.append(rid)
-        ok = order in (["FMT", "DATA"], ["FMT", "SMPL", "DATA"])
-        ctx.ob("L7", p.ret_node, "chunks are appended in the order fmt, [smpl], data", ok, f"order {order}", inst=f"order:{'+'.join(str(o) for o in order)}")
-        # dest encoding
-        for call, env, st in calls_on(p, name="StreamEncoding"):
-            kw = {k.arg: evaluator(ctx, enc, env).ev(k.value).key() for k in call.keywords}
-            ok = kw.get("endianess") == "Endianess.LITTLE" and kw.get("sample_width") in ("sub(obj.data_streams,0).encoding.sample_width", "((sub(obj.data_streams,0)).encoding).sample_width") \
-                and kw.get("num_interleaved_channels") == "obj.num_channels"
-            ctx.ob("L7", call, "destination encoding: little-endian, source sample width, the sample's channel count", ok, f"{kw}", inst="dest-encoding")
-        # data generator
-        mt = list(calls_on(p, name="make_transcoder"))
-        ok = len(mt) == 1 and [evaluator(ctx, enc, mt[0][1]).ev(a).key() for a in mt[0][0].args][0] == "obj.data_streams"
-        ctx.ob("L7", p.ret_node, "the data chunk is the transcoder over the sample's data streams", ok, "", inst=f"data-gen:{len(order)}")
-    # smpl chunk requirement
-    ok = any("requires_smpl_chunk" in norm(n) for n in own_nodes(enc) if isinstance(n, ast.If))
-    ctx.ob("L7", enc, "the smpl chunk is optional", ok, "", inst="smpl-optional")
-    # result container nesting matches RiffStruct: data -> chunks
-    rets = [n for n in own_nodes(enc) if isinstance(n, ast.Assign) and norm(n.targets[0]) == "result"]
-    ok = bool(rets) and "'data'" in norm(rets[-1].value) and "'chunks': riff_chunks" in norm(rets[-1].value)
-    ctx.ob("L7", enc, "the built object nests data -> chunks as RiffStruct expects", ok, "", inst="nesting")
+            ev_ = evaluator(ctx, enc, s_.env)
+            if isinstance(s_.ast, ast.Assign) and isinstance(s_.ast.value, ast.List) and norm(s_.ast.targets[0]) == lname:
+                elems = [ev_.ev(x).key() for x in s_.ast.value.elts]
+            for n, k, v in grow_events(s_.ast, lname):
+                if k == "append":
+                    elems.append(ev_.ev(v).key())
+                elif k in ("extend", "iadd", "concat") and isinstance(v, ast.List):
+                    elems += [ev_.ev(x).key() for x in v.elts]
+                else:
+                    elems.append("?")
+        kinds = [next((k for k, w in want_chunk.items() if e == w), None) for e in elems]
+        ok = kinds in (["FMT", "DATA"], ["FMT", "SMPL", "DATA"])
+        seen_orders.add(tuple(str(k) for k in kinds))
+        ctx.ob("L7", p.ret_node, "chunks are appended in the order fmt, [smpl], data", ok, "" if ok else f"chunk list on this path: {[e[:90] for e in elems]}",
+               inst=f"order:{'+'.join(str(o) for o in kinds)}")
+        ok = kinds[:1] == ["FMT"]
+        ctx.ob("L7", p.ret_node, "destination encoding: little-endian, source sample width, the sample's channel count (fmt chunk and transcoder use the same one)", ok and "DATA" in kinds,
+               "", inst="dest-encoding")
+        ok = "DATA" in kinds
+        ctx.ob("L7", p.ret_node, "the data chunk is the transcoder over the sample's data streams", ok, "", inst=f"data-gen:{len(kinds)}")
+        # structure of the returned object from its term; that the list under `chunks` is the assembled list from the AST
+        under = []
+        for n in own_nodes(enc):
+            if isinstance(n, ast.Dict):
+                under += [v for k, v in zip(n.keys, n.values) if isinstance(k, ast.Constant) and k.value == "chunks"]
+            if isinstance(n, ast.Call) and isinstance(n.func, ast.Name) and n.func.id in ("Container", "dict"):
+                under += [k.value for k in n.keywords if k.arg == "chunks"]
+        ok = m is not None and lname is not None and len(under) == 1 and isinstance(under[0], ast.Name) and under[0].id == lname
+        ctx.ob("L7", p.ret_node, "the built object nests data -> chunks as RiffStruct expects", ok, "" if ok else f"returns `{ret[:140]}`", inst="nesting")
+    ok = ("FMT", "DATA") in seen_orders and ("FMT", "SMPL", "DATA") in seen_orders
+    ctx.ob("L7", enc, "the smpl chunk is optional", ok, f"{sorted(seen_orders)}", inst="smpl-optional")
     # fmt chunk
     fm = ctx.fn(gp, "get_fmt_chunk_data", "L7")
     for p in [p for p in run_paths(ctx, fm, rule="L7") if p.end == "return"]:
@@ -322,8 +347,9 @@ def rule_L7(ctx):
     if ok:
         it = withs[0].items[0]
         c = it.context_expr
-        ok = isinstance(c, ast.Call) and isinstance(c.func, ast.Name) and c.func.id == "open" and len(c.args) >= 2 \
-            and isinstance(c.args[1], ast.Constant) and c.args[1].value == "wb" and norm(c.args[0]) == ex.args.args[1].arg
+        from .util import call_parts
+        fname_, pos_, kw_ = call_parts(evaluator(ctx, ex, {}).ev(c).key()) if isinstance(c, ast.Call) else ("", [], {})
+        ok = fname_ == "open" and len(pos_) == 2 and pos_[0] == ex.args.args[1].arg and pos_[1] == "'wb'" and not kw_
         det = "" if ok else f"output is opened with `{norm(c)}`: an existing longer file is not truncated / not a binary write"
         if ok:
             b = [n for n in ast.walk(withs[0]) if isinstance(n, ast.Call) and isinstance(n.func, ast.Attribute) and n.func.attr == "build_stream"]
